@@ -196,6 +196,63 @@ def check_format_edited(acc):
                 acc.step(("format", a), ("edit", b), hash(fresh[b]))
 
 
+class _ReenteringLibrary(Library):
+    """A user's Library subclass whose `blocks` view, at its n-th reading, starts a complete second write with the SAME
+    format object (think: a logging / progress hook, or a second thread sharing the format) - and otherwise is a Library."""
+
+    armed = None  # (n, inner_library, fmt, results)
+
+    @property
+    def blocks(self):
+        st = self.armed
+        if st is not None:
+            st[0] -= 1
+            if st[0] < 0:
+                self.armed = None
+                try:
+                    st[3].append(("ok", bibtexparser.writer.write(st[1], st[2])))
+                except Exception as ex:
+                    st[3].append(("raised", type(ex).__name__))
+        return Library.blocks.fget(self)
+
+
+def check_write_in_flight(acc):
+    """Two writes in flight on one format object: the outer write is what it is without the inner one, the inner one what
+    it is alone, the format object is what it was."""
+    import bibtexparser.writer  # noqa
+
+    uni = universe()
+    outer_names = ["E1", "S", "E3", "PF", "IC", "E5"]
+    inner_names = ["E0", "E2", "P"]
+    for spec in EDIT_SPECS[:6]:
+        fresh = lambda: mkformat(spec)
+        exp_outer = bibtexparser.writer.write(Library([uni[n] for n in outer_names]), fresh())
+        exp_inner = bibtexparser.writer.write(Library([_clone(uni[n]) for n in inner_names]), fresh())
+        for nth in range(0, 6):
+            lib = _ReenteringLibrary([uni[n] for n in outer_names])
+            inner = Library([_clone(uni[n]) for n in inner_names])
+            fmt = fresh()
+            before = canon(fmt)
+            results = []
+            lib.armed = [nth, inner, fmt, results]
+            case = {"write_in_flight": list(spec), "inner_write_at_blocks_reading": nth}
+            acc.trace(2)
+            acc.case(nontrivial_key=("write-in-flight", spec, nth))
+            acc.count("writes_in_flight")
+            try:
+                got = bibtexparser.writer.write(lib, fmt)
+            except Exception as ex:
+                acc.exception(ex, case, "writer.write")
+                continue
+            acc.step(("format", spec), ("inner write at reading", nth), hash(got))
+            if got != exp_outer:
+                acc.violation({"oracle": "outer_write_unaffected_by_a_write_in_flight"}, {"case": case, "observed": got, "expected": exp_outer})
+            elif results and results[0] != ("ok", exp_inner):
+                acc.violation({"oracle": "inner_write_in_flight_equals_write_alone"}, {"case": case, "observed": repr(results[0])[:600], "expected": exp_inner})
+            elif canon(fmt) != before:
+                acc.violation({"oracle": "format_left_unchanged", "path": "write in flight"}, {"case": case, "observed": repr(vars(fmt)), "expected": list(spec)})
+
+
 def check_history(acc):
     """The same Library and BibtexFormat objects over a history of writes and in-place edits (longer / shorter keys,
     added and removed fields and blocks): every write obeys the contract for the library as it is then."""
@@ -462,6 +519,7 @@ def run_shard(shard, tier, acc):
         return check_history(acc)
     if shard[0] == "same":
         check_format_edited(acc)
+        check_write_in_flight(acc)
         return check_same_object(acc)
     if shard[0] == "wide":
         return check_wide(acc, tier)
@@ -498,6 +556,8 @@ def replay(case, acc):
         return check_same_object(acc)
     if "format_edited" in case:
         return check_format_edited(acc)
+    if "write_in_flight" in case:
+        return check_write_in_flight(acc)
     if "wide" in case:
         ks, kl = case["wide"]
         lib = Library([Entry("article", "w1", [Field("k" * ks, "{short}"), Field("m" * kl, "{long}"), Field("z", "1")]), Entry("book", "w2", [Field("y", "{other entry}")])])
